@@ -42,6 +42,9 @@ ASSUMPTIONS = ["reversal is examined for data-driven built-in scores only (a has
 def make_recipe(rng, tier):
     p = int(rng.integers(1, 4))
     spec, nmin = mw(rng, p, dense_events=bool(rng.random() < 0.8))
+    from vf.zoo import _no_negative_tuned_threshold
+
+    spec = _no_negative_tuned_threshold(spec)
     nmax = 70 if tier == "quick" else (300 if rng.random() < 0.05 else 110)
     n = nmin if rng.random() < 0.06 else int(rng.integers(nmin, max(nmin + 1, nmax)))
     kind = ["mean_changes", "weak_changes", "noise", "small_alphabet", "piecewise_const", "spikes",
@@ -50,6 +53,8 @@ def make_recipe(rng, tier):
     int_dtype = bool(rng.random() < 0.15)
     if int_dtype:
         X = np.round(2 * X)
+    elif rng.random() < 0.2:
+        X = X * float(rng.choice([1e-3, 1e-5, 1e-7]))  # the same signal in a small unit of measurement
     return {"det": spec, "X": X, "data_kind": kind, "int_dtype": int_dtype}
 
 
@@ -117,7 +122,7 @@ def exec_case(ctx, r):
     ts = np.arange(b, n - b + 1)
     want = np.zeros(n)
     want[ts] = cs.evaluate(np.column_stack((ts - b, ts, ts + b))).sum(axis=1)
-    tol = 1e-9 * (1 + np.abs(want).max())
+    tol = 1e-9 * np.abs(want).max() + 1e-300  # purely relative: scores scale with the data's unit
     ctx.stat("score_positions_checked", n)
     inside = np.zeros(n, dtype=bool)
     inside[ts] = True
